@@ -376,7 +376,7 @@ Proof.
   induction x as [|x IH]; intros ks d rk rd Hp Hl Hn.
   - cbn [repeat app]. apply dflt_ok_somes; auto.
   - destruct ks as [|k r]; cbn in Hl; [discriminate|].
-    inversion Hp as [|? ? Hk Hr]; subst. cbn. rewrite Hk. split; auto. apply IH; auto.
+    inversion Hp as [|? ? Hk Hr]; subst. cbn. rewrite Hk. split; [reflexivity | apply IH; auto].
 Qed.
 
 Lemma expected_params_valid ann a :
@@ -401,3 +401,1212 @@ Qed.
 
 Lemma dup_free_nil names : dup_free [] names = true <-> NoDup names.
 Proof. rewrite dup_free_spec. split; [intros [H _]; exact H | intros H; split; [exact H | intros x _ []]]. Qed.
+
+(* ================================================================================================ *)
+(* C. Signature.__str__ read back by the def grammar                                                 *)
+(* ================================================================================================ *)
+Definition name_ok (n : text) : Prop := n <> [] /\ forallb is_ident_char n = true.
+
+(* ---- C.1 the lexer on the characters Signature.__str__ writes ---- *)
+Lemma lex_expr st e r : lex st (PE e :: r) = flush_st st ++ TExpr e :: lex LS0 r.
+Proof. reflexivity. Qed.
+Lemma lex_colon st r : lex st (PC 58 :: r) = flush_st st ++ TColon :: lex LS0 r.
+Proof. reflexivity. Qed.
+Lemma lex_equal st r : lex st (PC 61 :: r) = flush_st st ++ TEq :: lex LS0 r.
+Proof. reflexivity. Qed.
+Lemma lex_comma st r : lex st (PC 44 :: r) = flush_st st ++ TComma :: lex LS0 r.
+Proof. reflexivity. Qed.
+Lemma lex_rpar st r : lex st (PC 41 :: r) = flush_st st ++ TR :: lex LS0 r.
+Proof. reflexivity. Qed.
+Lemma lex_lpar st r : lex st (PC 40 :: r) = flush_st st ++ TL :: lex LS0 r.
+Proof. reflexivity. Qed.
+Lemma lex_slash st r : lex st (PC 47 :: r) = flush_st st ++ TSlash :: lex LS0 r.
+Proof. reflexivity. Qed.
+Lemma lex_space st r : lex st (PC 32 :: r) = flush_st st ++ lex LS0 r.
+Proof. reflexivity. Qed.
+Lemma lex_star0 r : lex LS0 (PC 42 :: r) = lex LSStar r.
+Proof. reflexivity. Qed.
+Lemma lex_star2 r : lex LSStar (PC 42 :: r) = TDStar :: lex LS0 r.
+Proof. reflexivity. Qed.
+
+Lemma lex_ident_run n : forall acc rest,
+  forallb is_ident_char n = true -> lex (LSId acc) (pcs n ++ rest) = lex (LSId (acc ++ n)) rest.
+Proof.
+  induction n as [|c n IH]; intros acc rest H; cbn [pcs map app].
+  - rewrite app_nil_r. reflexivity.
+  - cbn [forallb] in H. apply andb_true_iff in H as [Hc Hn].
+    cbn [lex]. rewrite Hc. fold (pcs n). rewrite IH by exact Hn. rewrite <- app_assoc. reflexivity.
+Qed.
+
+(* a name, read from the start state or right after a single '*' *)
+Lemma lex_name st n rest :
+  (st = LS0 \/ st = LSStar) -> name_ok n ->
+  lex st (pcs n ++ rest) = flush_st st ++ lex (LSId n) rest.
+Proof.
+  intros Hst [Hne Hid]. destruct n as [|c n]; [contradiction|].
+  cbn [forallb] in Hid. apply andb_true_iff in Hid as [Hc Hn].
+  cbn [pcs map app lex]. rewrite Hc. fold (pcs n).
+  destruct Hst as [-> | ->]; cbn [flush_st app]; rewrite (lex_ident_run n [c] rest Hn); reflexivity.
+Qed.
+
+Definition closes (rest : list piece) : Prop := exists c r, rest = PC c :: r /\ (c = 44 \/ c = 41).
+
+(* ---- C.2 entries of the parameter list: pieces and tokens ---- *)
+Definition tail_pieces (a d : option expr) : list piece :=
+  match a, d with
+  | Some a, Some d => pcs [58; 32] ++ [PE a] ++ pcs [32; 61; 32] ++ [PE d]
+  | Some a, None => pcs [58; 32] ++ [PE a]
+  | None, Some d => pcs [61] ++ [PE d]
+  | None, None => []
+  end.
+
+Definition item_pieces (it : item) : list piece :=
+  match it with
+  | ISlash => [PC 47]
+  | IStar => [PC 42]
+  | IVar n a => PC 42 :: pcs n ++ tail_pieces a None
+  | IKwargs n a => PC 42 :: PC 42 :: pcs n ++ tail_pieces a None
+  | IPlain n a d => pcs n ++ tail_pieces a d
+  end.
+
+Definition annot_toks (a : option expr) : list token := match a with Some a => [TColon; TExpr a] | None => [] end.
+Definition default_toks (d : option expr) : list token := match d with Some d => [TEq; TExpr d] | None => [] end.
+
+Definition item_toks (it : item) : list token :=
+  match it with
+  | ISlash => [TSlash]
+  | IStar => [TStar]
+  | IVar n a => TStar :: TName n :: annot_toks a
+  | IKwargs n a => TDStar :: TName n :: annot_toks a
+  | IPlain n a d => TName n :: annot_toks a ++ default_toks d
+  end.
+
+Definition item_name_ok (it : item) : Prop :=
+  match it with
+  | ISlash | IStar => True
+  | IVar n _ | IKwargs n _ | IPlain n _ _ => name_ok n
+  end.
+
+Definition item_of_param (p : param) : item :=
+  match pkind p with
+  | VAR_POSITIONAL => IVar (pname p) (pannot p)
+  | VAR_KEYWORD => IKwargs (pname p) (pannot p)
+  | _ => IPlain (pname p) (pannot p) (pdefault p)
+  end.
+
+Definition var_no_default (p : param) : Prop :=
+  match pkind p with VAR_POSITIONAL | VAR_KEYWORD => pdefault p = None | _ => True end.
+
+Lemma param_str_item p : var_no_default p -> param_str p = item_pieces (item_of_param p).
+Proof.
+  destruct p as [n k d a]. unfold var_no_default, param_str, item_of_param. cbn [pkind pdefault pname pannot].
+  destruct k; intros H; try subst d; destruct a; try destruct d; cbn [item_pieces tail_pieces];
+    repeat rewrite <- app_assoc; rewrite ?app_nil_r; reflexivity.
+Qed.
+
+Lemma lex_tail n a d rest :
+  closes rest ->
+  lex (LSId n) (tail_pieces a d ++ rest) = TName n :: annot_toks a ++ default_toks d ++ lex LS0 rest.
+Proof.
+  intros (c & r & -> & Hc).
+  destruct a as [a|], d as [d|]; cbn [tail_pieces pcs map app annot_toks default_toks].
+  - rewrite lex_colon, lex_space, lex_expr, lex_space, lex_equal, lex_space, lex_expr. reflexivity.
+  - rewrite lex_colon, lex_space, lex_expr. reflexivity.
+  - rewrite lex_equal, lex_expr. reflexivity.
+  - destruct Hc as [-> | ->]; reflexivity.
+Qed.
+
+Definition lexes_to (e : list piece) (ts : list token) : Prop :=
+  forall rest, closes rest -> lex LS0 (e ++ rest) = ts ++ lex LS0 rest.
+
+Lemma item_lexes it : item_name_ok it -> lexes_to (item_pieces it) (item_toks it).
+Proof.
+  intros Hn rest Hr. destruct it as [| |n a|n a|n a d]; cbn [item_pieces item_toks item_name_ok] in *.
+  - reflexivity.
+  - destruct Hr as (c & r & -> & [-> | ->]); reflexivity.
+  - cbn [app]. rewrite lex_star0. rewrite <- app_assoc.
+    rewrite (lex_name LSStar n _ (or_intror eq_refl) Hn). rewrite lex_tail by exact Hr.
+    cbn [flush_st default_toks app]. reflexivity.
+  - cbn [app]. rewrite lex_star0, lex_star2. rewrite <- app_assoc.
+    rewrite (lex_name LS0 n _ (or_introl eq_refl) Hn). rewrite lex_tail by exact Hr.
+    cbn [flush_st default_toks app]. reflexivity.
+  - rewrite <- app_assoc. rewrite (lex_name LS0 n _ (or_introl eq_refl) Hn). rewrite lex_tail by exact Hr.
+    cbn [flush_st app]. rewrite <- app_assoc. reflexivity.
+Qed.
+
+Fixpoint tjoin (l : list (list token)) : list token :=
+  match l with
+  | [] => []
+  | [x] => x
+  | x :: r => x ++ TComma :: tjoin r
+  end.
+
+Lemma lex_join es : forall tss tail,
+  Forall2 lexes_to es tss ->
+  lex LS0 (join [PC 44; PC 32] es ++ PC 41 :: tail) = tjoin tss ++ TR :: lex LS0 tail.
+Proof.
+  induction es as [|e es IH]; intros tss tail H; inversion H as [|? ts ? tss' He Hes]; subst.
+  - reflexivity.
+  - destruct es as [|e2 es].
+    + inversion Hes; subst. cbn [join tjoin].
+      rewrite (He (PC 41 :: tail)) by (exists 41, tail; auto). reflexivity.
+    + inversion Hes as [|? ts2 ? tss2 He2 Hes2]; subst.
+      change (join [PC 44; PC 32] (e :: e2 :: es)) with (e ++ [PC 44; PC 32] ++ join [PC 44; PC 32] (e2 :: es)).
+      change (tjoin (ts :: ts2 :: tss2)) with (ts ++ TComma :: tjoin (ts2 :: tss2)).
+      rewrite <- ?app_assoc. cbn [app].
+      rewrite (He (PC 44 :: PC 32 :: join [PC 44; PC 32] (e2 :: es) ++ PC 41 :: tail)) by (eexists _, _; auto).
+      rewrite lex_comma, lex_space. cbn [flush_st app].
+      rewrite (IH (ts2 :: tss2) tail Hes). reflexivity.
+Qed.
+
+Definition ret_toks (ret : option expr) : list token := match ret with Some a => [TArrow; TExpr a] | None => [] end.
+
+Lemma lex_ret ret : lex LS0 (ret_str ret) = ret_toks ret.
+Proof. destruct ret; reflexivity. Qed.
+
+(* the whole text, once the entries written by the loop are known to be `its` *)
+Lemma lex_sig_str ps ret its :
+  sig_loop false true ps = map item_pieces its -> Forall item_name_ok its ->
+  lex LS0 (sig_str (mkSig ps ret)) = TL :: tjoin (map item_toks its) ++ TR :: ret_toks ret.
+Proof.
+  intros Hl Hn. unfold sig_str. cbn [sig_params sig_ret]. rewrite Hl.
+  rewrite lex_lpar. cbn [flush_st app]. f_equal.
+  change ([PC 41] ++ ret_str ret) with (PC 41 :: ret_str ret).
+  assert (HF : Forall2 lexes_to (map item_pieces its) (map item_toks its)).
+  { clear Hl. induction its as [|it its IH]; cbn [map]; constructor.
+    - apply item_lexes. inversion Hn; auto.
+    - apply IH. inversion Hn; auto. }
+  rewrite (lex_join (map item_pieces its) (map item_toks its) (ret_str ret) HF).
+  rewrite lex_ret. reflexivity.
+Qed.
+
+(* ---- C.3 the entries the loop of Signature.__str__ writes for a well-ordered parameter list ---- *)
+Definition seg_ok (k : kind) (l : list param) : Prop := Forall (fun p => pkind p = k) l.
+Definition var_ok (k : kind) (l : list param) : Prop :=
+  (length l <= 1)%nat /\ Forall (fun p => pkind p = k /\ pdefault p = None) l.
+
+Definition slash_entry (po : list param) : list (list piece) := match po with [] => [] | _ => [[PC 47]] end.
+
+Lemma loop_po po : forall rp rk rest,
+  seg_ok POSITIONAL_ONLY po -> po <> [] ->
+  sig_loop rp rk (po ++ rest) = map param_str po ++ sig_loop true rk rest.
+Proof.
+  induction po as [|p po IH]; intros rp rk rest Hs Hne; [contradiction|].
+  inversion Hs as [|? ? Hp Hpo]; subst.
+  cbn [app sig_loop map]. rewrite Hp. cbn [kind_eqb kind_rank N.eqb Pos.eqb andb app].
+  f_equal. destruct po as [|p2 po]; [reflexivity|].
+  apply IH; [exact Hpo | discriminate].
+Qed.
+
+Lemma loop_slash rk rest :
+  Forall (fun p => pkind p <> POSITIONAL_ONLY) rest ->
+  sig_loop true rk rest = [PC 47] :: sig_loop false rk rest.
+Proof.
+  intros H. destruct rest as [|p r]; [reflexivity|].
+  inversion H as [|? ? Hp _]; subst. cbn [sig_loop].
+  destruct (pkind p); try contradiction; reflexivity.
+Qed.
+
+Lemma loop_po_gen po rk rest :
+  seg_ok POSITIONAL_ONLY po -> Forall (fun p => pkind p <> POSITIONAL_ONLY) rest ->
+  sig_loop false rk (po ++ rest) = map param_str po ++ slash_entry po ++ sig_loop false rk rest.
+Proof.
+  intros Hs Hr. destruct po as [|p po]; [reflexivity|].
+  rewrite loop_po by (auto; discriminate). rewrite loop_slash by exact Hr. reflexivity.
+Qed.
+
+Lemma loop_pk pk : forall rk rest,
+  seg_ok POSITIONAL_OR_KEYWORD pk ->
+  sig_loop false rk (pk ++ rest) = map param_str pk ++ sig_loop false rk rest.
+Proof.
+  induction pk as [|p pk IH]; intros rk rest Hs; [reflexivity|].
+  inversion Hs as [|? ? Hp Hpk]; subst.
+  cbn [app sig_loop map]. rewrite Hp. cbn [kind_eqb kind_rank N.eqb Pos.eqb andb app].
+  f_equal. apply IH. exact Hpk.
+Qed.
+
+Lemma loop_va va rk rest :
+  var_ok VAR_POSITIONAL va ->
+  sig_loop false rk (va ++ rest) =
+  map param_str va ++ sig_loop false (match va with [] => rk | _ => false end) rest.
+Proof.
+  intros [Hl Hf]. destruct va as [|v [|v2 va]]; [reflexivity| |cbn in Hl; lia].
+  inversion Hf as [|? ? [Hk _] _]; subst.
+  cbn [app sig_loop map]. rewrite Hk. reflexivity.
+Qed.
+
+Definition star_entry (rk : bool) (ko : list param) : list (list piece) :=
+  if rk then match ko with [] => [] | _ => [[PC 42]] end else [].
+
+Lemma loop_ko_false ko : forall rest,
+  seg_ok KEYWORD_ONLY ko ->
+  sig_loop false false (ko ++ rest) = map param_str ko ++ sig_loop false false rest.
+Proof.
+  induction ko as [|p ko IH]; intros rest Hs; [reflexivity|].
+  inversion Hs as [|? ? Hp Hko]; subst.
+  cbn [app sig_loop map]. rewrite Hp. cbn [kind_eqb kind_rank N.eqb Pos.eqb andb app].
+  f_equal. apply IH. exact Hko.
+Qed.
+
+Lemma loop_ko ko rk rest :
+  seg_ok KEYWORD_ONLY ko ->
+  sig_loop false rk (ko ++ rest) =
+  star_entry rk ko ++ map param_str ko ++ sig_loop false (match ko with [] => rk | _ => false end) rest.
+Proof.
+  intros Hs. destruct rk.
+  - destruct ko as [|p ko]; [reflexivity|].
+    inversion Hs as [|? ? Hp Hko]; subst.
+    cbn [app sig_loop map star_entry]. rewrite Hp. cbn [kind_eqb kind_rank N.eqb Pos.eqb andb app].
+    do 2 f_equal. apply loop_ko_false. exact Hko.
+  - cbn [star_entry app]. rewrite loop_ko_false by exact Hs. destruct ko; reflexivity.
+Qed.
+
+Lemma loop_vk vk rk :
+  var_ok VAR_KEYWORD vk -> sig_loop false rk vk = map param_str vk.
+Proof.
+  intros [Hl Hf]. destruct vk as [|v [|v2 vk]]; [reflexivity| |cbn in Hl; lia].
+  inversion Hf as [|? ? [Hk _] _]; subst.
+  cbn [sig_loop map]. rewrite Hk. reflexivity.
+Qed.
+
+Definition plain (p : param) : item := IPlain (pname p) (pannot p) (pdefault p).
+Definition ivar (p : param) : item := IVar (pname p) (pannot p).
+Definition ikw (p : param) : item := IKwargs (pname p) (pannot p).
+
+Definition items5 (po pk va ko vk : list param) : list item :=
+  map plain po ++ (match po with [] => [] | _ => [ISlash] end)
+  ++ map plain pk
+  ++ map ivar va
+  ++ (match va, ko with [], _ :: _ => [IStar] | _, _ => [] end)
+  ++ map plain ko
+  ++ map ikw vk.
+
+Lemma map_param_str_plain k l :
+  seg_ok k l -> k <> VAR_POSITIONAL -> k <> VAR_KEYWORD ->
+  map param_str l = map item_pieces (map plain l).
+Proof.
+  intros Hs H1 H2. rewrite map_map. apply map_ext_in. intros p Hp.
+  pose proof (proj1 (Forall_forall _ _) Hs p Hp) as Hk. cbn beta in Hk.
+  rewrite param_str_item.
+  - unfold item_of_param, plain. rewrite Hk. destruct k; try contradiction; reflexivity.
+  - unfold var_no_default. rewrite Hk. destruct k; try contradiction; exact I.
+Qed.
+
+Lemma map_param_str_var k l (mk : param -> item) :
+  var_ok k l -> (forall p, pkind p = k -> item_of_param p = mk p) -> (k = VAR_POSITIONAL \/ k = VAR_KEYWORD) ->
+  map param_str l = map item_pieces (map mk l).
+Proof.
+  intros [_ Hf] Hmk Hk. rewrite map_map. apply map_ext_in. intros p Hp.
+  pose proof (proj1 (Forall_forall _ _) Hf p Hp) as [Hkp Hd]. cbn beta in *.
+  rewrite param_str_item.
+  - rewrite Hmk by exact Hkp. reflexivity.
+  - unfold var_no_default. rewrite Hkp. destruct Hk as [-> | ->]; exact Hd.
+Qed.
+
+Lemma sig_loop_items po pk va ko vk :
+  seg_ok POSITIONAL_ONLY po -> seg_ok POSITIONAL_OR_KEYWORD pk -> var_ok VAR_POSITIONAL va ->
+  seg_ok KEYWORD_ONLY ko -> var_ok VAR_KEYWORD vk ->
+  sig_loop false true (po ++ pk ++ va ++ ko ++ vk) = map item_pieces (items5 po pk va ko vk).
+Proof.
+  intros Hpo Hpk Hva Hko Hvk.
+  assert (Hrest : Forall (fun p => pkind p <> POSITIONAL_ONLY) (pk ++ va ++ ko ++ vk)).
+  { repeat (apply Forall_app; split).
+    - eapply Forall_impl; [|exact Hpk]. cbn. intros p ->. discriminate.
+    - destruct Hva as [_ Hva]. eapply Forall_impl; [|exact Hva]. cbn. intros p [-> _]. discriminate.
+    - eapply Forall_impl; [|exact Hko]. cbn. intros p ->. discriminate.
+    - destruct Hvk as [_ Hvk]. eapply Forall_impl; [|exact Hvk]. cbn. intros p [-> _]. discriminate. }
+  rewrite loop_po_gen by assumption.
+  rewrite loop_pk by assumption.
+  rewrite loop_va by assumption.
+  rewrite loop_ko by assumption.
+  rewrite loop_vk by assumption.
+  unfold items5. rewrite !map_app.
+  rewrite (map_param_str_plain POSITIONAL_ONLY po Hpo) by discriminate.
+  rewrite (map_param_str_plain POSITIONAL_OR_KEYWORD pk Hpk) by discriminate.
+  rewrite (map_param_str_plain KEYWORD_ONLY ko Hko) by discriminate.
+  rewrite (map_param_str_var VAR_POSITIONAL va ivar Hva)
+    by (auto; intros p Hp; unfold item_of_param, ivar; rewrite Hp; reflexivity).
+  rewrite (map_param_str_var VAR_KEYWORD vk ikw Hvk)
+    by (auto; intros p Hp; unfold item_of_param, ikw; rewrite Hp; reflexivity).
+  destruct po, va, ko; reflexivity.
+Qed.
+
+(* ---- C.4 the reader ---- *)
+Lemma break_rpar_app ts after :
+  Forall (fun t => is_rpar t = false) ts -> break_rpar (ts ++ TR :: after) = Some (ts, after).
+Proof.
+  induction ts as [|t ts IH]; intros H; cbn [app break_rpar is_rpar].
+  - reflexivity.
+  - inversion H as [|? ? Ht Hts]; subst. rewrite Ht, IH by exact Hts. reflexivity.
+Qed.
+
+Lemma split_commas_free x : Forall (fun t => is_comma t = false) x -> split_commas x = [x].
+Proof.
+  induction x as [|t x IH]; intros H; cbn [split_commas]; [reflexivity|].
+  inversion H as [|? ? Ht Hx]; subst. rewrite Ht, IH by exact Hx. reflexivity.
+Qed.
+
+Lemma split_commas_app x rest :
+  Forall (fun t => is_comma t = false) x -> split_commas (x ++ TComma :: rest) = x :: split_commas rest.
+Proof.
+  induction x as [|t x IH]; intros H; cbn [app split_commas is_comma]; [reflexivity|].
+  inversion H as [|? ? Ht Hx]; subst. rewrite Ht, IH by exact Hx. reflexivity.
+Qed.
+
+Lemma split_commas_tjoin tss :
+  tss <> [] -> Forall (Forall (fun t => is_comma t = false)) tss -> split_commas (tjoin tss) = tss.
+Proof.
+  induction tss as [|x tss IH]; intros Hne H; [contradiction|].
+  inversion H as [|? ? Hx Htss]; subst.
+  destruct tss as [|y tss].
+  - cbn [tjoin]. apply split_commas_free. exact Hx.
+  - change (tjoin (x :: y :: tss)) with (x ++ TComma :: tjoin (y :: tss)).
+    rewrite split_commas_app by exact Hx. f_equal. apply IH; [discriminate | exact Htss].
+Qed.
+
+Lemma item_toks_clean it :
+  Forall (fun t => is_comma t = false) (item_toks it) /\ Forall (fun t => is_rpar t = false) (item_toks it).
+Proof. destruct it as [| |n [a|]|n [a|]|n [a|] [d|]]; cbn; split; repeat constructor. Qed.
+
+Lemma item_toks_nonempty it : item_toks it <> [].
+Proof. destruct it; cbn; discriminate. Qed.
+
+Lemma parse_item_toks it : parse_item (item_toks it) = Some it.
+Proof. destruct it as [| |n [a|]|n [a|]|n [a|] [d|]]; reflexivity. Qed.
+
+Lemma parse_items_toks its : parse_items (map item_toks its) = Some its.
+Proof.
+  induction its as [|it its IH]; cbn [map parse_items]; [reflexivity|].
+  rewrite parse_item_toks, IH. reflexivity.
+Qed.
+
+Lemma tjoin_clean tss :
+  Forall (Forall (fun t => is_rpar t = false)) tss -> Forall (fun t => is_rpar t = false) (tjoin tss).
+Proof.
+  induction tss as [|x tss IH]; intros H; [constructor|].
+  inversion H as [|? ? Hx Htss]; subst. destruct tss as [|y tss]; [exact Hx|].
+  change (tjoin (x :: y :: tss)) with (x ++ TComma :: tjoin (y :: tss)).
+  apply Forall_app; split; [exact Hx|]. constructor; [reflexivity | apply IH; exact Htss].
+Qed.
+
+Lemma tjoin_nonempty tss : tss <> [] -> Forall (fun x => x <> []) tss -> tjoin tss <> [].
+Proof.
+  destruct tss as [|x tss]; [contradiction|]. intros _ H. inversion H as [|? ? Hx _]; subst.
+  destruct tss as [|y tss]; [exact Hx|].
+  change (tjoin (x :: y :: tss)) with (x ++ TComma :: tjoin (y :: tss)).
+  destruct x; [contradiction | discriminate].
+Qed.
+
+(* read_sig on the tokens of a parameter list whose entries are `its` *)
+Lemma read_sig_items its ret :
+  read_sig (TL :: tjoin (map item_toks its) ++ TR :: ret_toks ret) =
+  match its with
+  | [] => Some (mkSig [] ret)
+  | _ => match read_items its with Some ps => Some (mkSig ps ret) | None => None end
+  end.
+Proof.
+  unfold read_sig.
+  rewrite break_rpar_app.
+  2:{ apply tjoin_clean. apply Forall_map. apply Forall_forall. intros it _. apply item_toks_clean. }
+  assert (Hret : read_ret (ret_toks ret) = Some ret) by (destruct ret; reflexivity).
+  rewrite Hret.
+  destruct its as [|it its]; [reflexivity|].
+  assert (Hne : tjoin (map item_toks (it :: its)) <> []).
+  { apply tjoin_nonempty; [discriminate|]. apply Forall_map. apply Forall_forall. intros x _. apply item_toks_nonempty. }
+  destruct (tjoin (map item_toks (it :: its))) as [|t ts] eqn:E; [contradiction|].
+  rewrite <- E. rewrite split_commas_tjoin.
+  - rewrite parse_items_toks. reflexivity.
+  - discriminate.
+  - apply Forall_map. apply Forall_forall. intros x _. apply item_toks_clean.
+Qed.
+
+(* positional defaults: once a parameter has one, the following ones have one; returns the final flag *)
+Fixpoint pmono (sd : bool) (l : list param) : option bool :=
+  match l with
+  | [] => Some sd
+  | p :: r => match pdefault p with
+              | Some _ => pmono true r
+              | None => if sd then None else pmono false r
+              end
+  end.
+
+Lemma pmono_app l1 : forall sd l2,
+  pmono sd (l1 ++ l2) = match pmono sd l1 with Some sd1 => pmono sd1 l2 | None => None end.
+Proof.
+  induction l1 as [|p l1 IH]; intros sd l2; cbn [app pmono]; [reflexivity|].
+  destruct (pdefault p); [apply IH|]. destruct sd; [reflexivity | apply IH].
+Qed.
+
+Lemma param_eta p : mkParam (pname p) (pkind p) (pdefault p) (pannot p) = p.
+Proof. destruct p; reflexivity. Qed.
+
+Lemma split_slash_plain l : forall rest,
+  split_slash (map plain l ++ rest) = (map plain l ++ fst (split_slash rest), snd (split_slash rest)).
+Proof.
+  induction l as [|p l IH]; intros rest; cbn [map app].
+  - destruct (split_slash rest); reflexivity.
+  - unfold plain at 1. cbn [split_slash]. rewrite IH. reflexivity.
+Qed.
+
+Definition no_slash (its : list item) : Prop := Forall (fun it => it <> ISlash) its.
+
+Lemma split_slash_none its : no_slash its -> split_slash its = (its, None).
+Proof.
+  induction its as [|it its IH]; intros H; [reflexivity|].
+  inversion H as [|? ? Hit Hits]; subst. cbn [split_slash].
+  destruct it; try contradiction; rewrite IH by exact Hits; reflexivity.
+Qed.
+
+Lemma plain_params_spec k l : forall sd sd',
+  seg_ok k l -> pmono sd l = Some sd' -> plain_params k sd (map plain l) = Some (l, sd').
+Proof.
+  induction l as [|p l IH]; intros sd sd' Hs Hm; cbn [map plain_params pmono] in *.
+  - injection Hm as ->. reflexivity.
+  - inversion Hs as [|? ? Hp Hl]; subst. unfold plain at 1.
+    destruct (pdefault p) as [d|] eqn:Ed.
+    + rewrite (IH true sd' Hl Hm). rewrite <- Ed, param_eta. reflexivity.
+    + destruct sd; [discriminate|]. rewrite (IH false sd' Hl Hm). rewrite <- Ed, param_eta. reflexivity.
+Qed.
+
+Lemma classify_pk pk : forall sd sd' rest,
+  seg_ok POSITIONAL_OR_KEYWORD pk -> pmono sd pk = Some sd' ->
+  classify PhPos sd (map plain pk ++ rest) = option_map (app pk) (classify PhPos sd' rest).
+Proof.
+  induction pk as [|p pk IH]; intros sd sd' rest Hs Hm; cbn [map app pmono] in *.
+  - injection Hm as ->. destruct (classify PhPos sd' rest); reflexivity.
+  - inversion Hs as [|? ? Hp Hpk]; subst. unfold plain at 1. cbn [classify].
+    destruct (pdefault p) as [d|] eqn:Ed.
+    + rewrite (IH true sd' rest Hpk Hm). rewrite <- Ed, <- Hp, param_eta.
+      destruct (classify PhPos sd' rest); reflexivity.
+    + destruct sd; [discriminate|]. rewrite (IH false sd' rest Hpk Hm). rewrite <- Ed, <- Hp, param_eta.
+      destruct (classify PhPos sd' rest); reflexivity.
+Qed.
+
+Lemma classify_ko ko : forall sd rest,
+  seg_ok KEYWORD_ONLY ko ->
+  classify PhKw sd (map plain ko ++ rest) = option_map (app ko) (classify PhKw sd rest).
+Proof.
+  induction ko as [|p ko IH]; intros sd rest Hs; cbn [map app].
+  - destruct (classify PhKw sd rest); reflexivity.
+  - inversion Hs as [|? ? Hp Hko]; subst. unfold plain at 1. cbn [classify].
+    rewrite (IH sd rest Hko). rewrite <- Hp, param_eta. destruct (classify PhKw sd rest); reflexivity.
+Qed.
+
+Lemma classify_vk ph sd vk :
+  (ph = PhPos \/ ph = PhKw) -> var_ok VAR_KEYWORD vk -> classify ph sd (map ikw vk) = Some vk.
+Proof.
+  intros Hph [Hl Hf]. destruct vk as [|v [|v2 vk]]; [| |cbn in Hl; lia].
+  - destruct Hph as [-> | ->]; reflexivity.
+  - inversion Hf as [|? ? [Hk Hd] _]; subst. cbn [map]. unfold ikw.
+    destruct Hph as [-> | ->]; cbn [classify option_map]; rewrite <- Hk, <- Hd, param_eta; reflexivity.
+Qed.
+
+(* everything after the positional-or-keyword parameters *)
+Lemma classify_tail sd va ko vk :
+  var_ok VAR_POSITIONAL va -> seg_ok KEYWORD_ONLY ko -> var_ok VAR_KEYWORD vk ->
+  classify PhPos sd (map ivar va ++ (match va, ko with [], _ :: _ => [IStar] | _, _ => [] end)
+                     ++ map plain ko ++ map ikw vk) = Some (va ++ ko ++ vk).
+Proof.
+  intros [Hl Hf] Hko Hvk. destruct va as [|v [|v2 va]]; [| |cbn in Hl; lia].
+  - cbn [map app]. destruct ko as [|k ko].
+    + cbn [map app]. apply classify_vk; auto.
+    + inversion Hko as [|? ? Hk Hko']; subst. cbn [map app classify]. unfold plain at 1. cbn [classify].
+      rewrite (classify_ko ko sd (map ikw vk) Hko'). rewrite classify_vk by auto.
+      cbn [option_map]. rewrite <- Hk, param_eta. reflexivity.
+  - inversion Hf as [|? ? [Hk Hd] _]; subst. cbn [map app]. unfold ivar. cbn [classify].
+    rewrite (classify_ko ko sd (map ikw vk) Hko). rewrite classify_vk by auto.
+    cbn [option_map]. rewrite <- Hk, <- Hd, param_eta. reflexivity.
+Qed.
+
+Lemma read_items5 po pk va ko vk sd :
+  seg_ok POSITIONAL_ONLY po -> seg_ok POSITIONAL_OR_KEYWORD pk -> var_ok VAR_POSITIONAL va ->
+  seg_ok KEYWORD_ONLY ko -> var_ok VAR_KEYWORD vk -> pmono false (po ++ pk) = Some sd ->
+  read_items (items5 po pk va ko vk) = Some (po ++ pk ++ va ++ ko ++ vk).
+Proof.
+  intros Hpo Hpk Hva Hko Hvk Hm.
+  rewrite pmono_app in Hm. destruct (pmono false po) as [sd1|] eqn:E1; [|discriminate].
+  set (tailits := map ivar va ++ (match va, ko with [], _ :: _ => [IStar] | _, _ => [] end)
+                  ++ map plain ko ++ map ikw vk).
+  assert (Hns : no_slash (map plain pk ++ tailits)).
+  { unfold no_slash, tailits. repeat (apply Forall_app; split);
+      try (apply Forall_map; apply Forall_forall; intros x _; discriminate).
+    destruct va, ko; repeat constructor; discriminate. }
+  assert (Hcl : classify PhPos sd1 (map plain pk ++ tailits) = Some (pk ++ va ++ ko ++ vk)).
+  { rewrite (classify_pk pk sd1 sd tailits Hpk Hm). unfold tailits.
+    rewrite classify_tail by assumption. reflexivity. }
+  unfold read_items, items5. fold tailits.
+  destruct po as [|p po].
+  - cbn [map app]. rewrite split_slash_none by exact Hns.
+    cbn [pmono] in E1. injection E1 as <-. exact Hcl.
+  - rewrite split_slash_plain. cbn [app split_slash fst snd]. rewrite app_nil_r.
+    cbn [map]. rewrite <- (map_cons plain p po).
+    rewrite (plain_params_spec POSITIONAL_ONLY (p :: po) false sd1 Hpo E1).
+    rewrite Hcl. reflexivity.
+Qed.
+
+(* ---- C.5 the round trip for a parameter list in Signature order ---- *)
+Theorem sig_str_roundtrip po pk va ko vk ret sd :
+  seg_ok POSITIONAL_ONLY po -> seg_ok POSITIONAL_OR_KEYWORD pk -> var_ok VAR_POSITIONAL va ->
+  seg_ok KEYWORD_ONLY ko -> var_ok VAR_KEYWORD vk -> pmono false (po ++ pk) = Some sd ->
+  Forall (fun p => name_ok (pname p)) (po ++ pk ++ va ++ ko ++ vk) ->
+  read_sig (lex LS0 (sig_str (mkSig (po ++ pk ++ va ++ ko ++ vk) ret))) =
+  Some (mkSig (po ++ pk ++ va ++ ko ++ vk) ret).
+Proof.
+  intros Hpo Hpk Hva Hko Hvk Hm Hn.
+  rewrite (lex_sig_str _ ret (items5 po pk va ko vk)).
+  - rewrite read_sig_items. rewrite (read_items5 po pk va ko vk sd) by assumption.
+    destruct (items5 po pk va ko vk) eqn:E; [|reflexivity].
+    unfold items5 in E.
+    destruct po; [|discriminate]. destruct pk; [|discriminate]. destruct va; [|discriminate].
+    destruct ko; [|discriminate]. destruct vk; [|discriminate]. reflexivity.
+  - apply sig_loop_items; assumption.
+  - rewrite !Forall_app in Hn. destruct Hn as (H1 & H2 & H3 & H4 & H5).
+    unfold items5. repeat (apply Forall_app; split);
+      try (apply Forall_map; eapply Forall_impl; [|eassumption]; cbn; auto).
+    + destruct po; repeat constructor.
+    + destruct va, ko; repeat constructor.
+Qed.
+
+(* ================================================================================================ *)
+(* D. from the definition as written to what is displayed                                            *)
+(* ================================================================================================ *)
+(* the ast.arguments record CPython's parser builds for a parameter list as written *)
+Definition arg_of (p : sparam) : ast_arg := mkArg (sp_name p) (sp_annot p).
+Definition arg_of_var (v : svar) : ast_arg := mkArg (sv_name v) (sv_annot v).
+Definition to_ast (s : src_sig) : ast_args :=
+  mkArgs (map arg_of (s_posonly s)) (map arg_of (s_args s)) (option_map arg_of_var (s_vararg s))
+         (map arg_of (s_kwonly s)) (src_kw_defaults s) (option_map arg_of_var (s_kwarg s)) (src_defaults s).
+
+Definition src_names (s : src_sig) : list text := map pname (params_of_src s).
+
+(* an annotation as displayed: unstring_annotation's first component *)
+Definition shown_annot (a : option expr) : option expr :=
+  match a with Some e => Some (fst (unstring_annotation e)) | None => None end.
+Definition shown_param (p : param) : param := mkParam (pname p) (pkind p) (pdefault p) (shown_annot (pannot p)).
+Definition displayed_params (s : src_sig) : list param := map shown_param (params_of_src s).
+Definition displayed_ret (s : src_sig) : option expr :=
+  match shown_annot (s_returns s) with
+  | Some r => if is_none_literal r then None else Some r
+  | None => None
+  end.
+Definition annot_report (a : option expr) : list report :=
+  match a with
+  | Some e => if snd (unstring_annotation e) then [SyntaxErrorInAnnotation] else []
+  | None => []
+  end.
+Definition annotation_reports (s : src_sig) : list report :=
+  flat_map annot_report (map pannot (params_of_src s) ++ opt_list (option_map Some (s_returns s))).
+
+(* ---- D.1 the annotations dict ---- *)
+Lemma dict_get_set_same k v d : dict_get k (dict_set k v d) = v.
+Proof.
+  induction d as [|[k' v'] d IH]; cbn [dict_set dict_get].
+  - rewrite text_eqb_refl. reflexivity.
+  - destruct (text_eqb k k') eqn:E; cbn [dict_get]; rewrite ?text_eqb_refl, ?E; auto.
+Qed.
+
+Lemma dict_get_set_other k k' v d : k <> k' -> dict_get k (dict_set k' v d) = dict_get k d.
+Proof.
+  intros Hne. induction d as [|[k2 v2] d IH]; cbn [dict_set dict_get].
+  - apply text_eqb_neq in Hne. rewrite Hne. reflexivity.
+  - destruct (text_eqb k' k2) eqn:E; cbn [dict_get].
+    + apply text_eqb_eq in E. subst k2. apply text_eqb_neq in Hne. rewrite Hne. reflexivity.
+    + destruct (text_eqb k k2); auto.
+Qed.
+
+Definition dstep (d : dict) (nv : text * option expr) : dict := dict_set (fst nv) (shown_annot (snd nv)) d.
+
+Lemma build_annotations_fst pairs : forall d, fst (build_annotations pairs d) = fold_left dstep pairs d.
+Proof.
+  induction pairs as [|[n [v|]] r IH]; intros d; cbn [build_annotations fold_left].
+  - reflexivity.
+  - destruct (unstring_annotation v) as [v' rep] eqn:E.
+    specialize (IH (dict_set n (Some v') d)).
+    destruct (build_annotations r (dict_set n (Some v') d)) as [d' reps]. cbn [fst] in *.
+    rewrite IH. unfold dstep at 3. cbn [fst snd shown_annot]. rewrite E. reflexivity.
+  - rewrite IH. reflexivity.
+Qed.
+
+Lemma build_annotations_snd pairs : forall d,
+  snd (build_annotations pairs d) = flat_map annot_report (map snd pairs).
+Proof.
+  induction pairs as [|[n [v|]] r IH]; intros d; cbn [build_annotations map flat_map snd].
+  - reflexivity.
+  - unfold annot_report at 1. destruct (unstring_annotation v) as [v' rep] eqn:E.
+    specialize (IH (dict_set n (Some v') d)).
+    destruct (build_annotations r (dict_set n (Some v') d)) as [d' reps]. cbn [snd] in *.
+    rewrite IH. reflexivity.
+  - rewrite IH. reflexivity.
+Qed.
+
+Lemma fold_get_notin pairs : forall d k,
+  ~ In k (map fst pairs) -> dict_get k (fold_left dstep pairs d) = dict_get k d.
+Proof.
+  induction pairs as [|[n v] r IH]; intros d k Hk; cbn [fold_left]; [reflexivity|].
+  cbn [map fst In] in Hk. rewrite IH by tauto.
+  unfold dstep. cbn [fst snd]. apply dict_get_set_other. intros ->. tauto.
+Qed.
+
+Lemma fold_get_in pairs : forall d k v,
+  NoDup (map fst pairs) -> In (k, v) pairs -> dict_get k (fold_left dstep pairs d) = shown_annot v.
+Proof.
+  induction pairs as [|[n v0] r IH]; intros d k v Hnd Hin; [destruct Hin|].
+  cbn [map fst] in Hnd. inversion Hnd as [|? ? Hnot Hnd']; subst.
+  cbn [fold_left]. destruct Hin as [E | Hin].
+  - injection E as -> ->. rewrite fold_get_notin by exact Hnot.
+    unfold dstep. cbn [fst snd]. apply dict_get_set_same.
+  - apply IH; assumption.
+Qed.
+
+(* ---- D.2 the record the parser builds, and the parameters as written ---- *)
+Definition src_pairs (s : src_sig) : list (text * option expr) :=
+  map (fun p => (pname p, pannot p)) (params_of_src s).
+
+Lemma all_args_to_ast s :
+  map (fun x => (a_name x, a_annot x)) (all_args (to_ast s)) = src_pairs s.
+Proof.
+  unfold all_args, to_ast, src_pairs, params_of_src. cbn [posonlyargs args vararg kwonlyargs kwarg].
+  rewrite !map_app, !map_map. cbn [a_name a_annot arg_of pname pannot].
+  destruct (s_vararg s), (s_kwarg s); reflexivity.
+Qed.
+
+Lemma src_pairs_fst s : map fst (src_pairs s) = src_names s.
+Proof. unfold src_pairs, src_names. rewrite map_map. reflexivity. Qed.
+
+Lemma flat_defaults_length (l : list sparam) :
+  (length (flat_map (fun p => match sp_default p with Some d => [d] | None => [] end) l) <= length l)%nat.
+Proof. induction l as [|p l IH]; cbn; [lia|]. destruct (sp_default p); cbn; lia. Qed.
+
+Lemma wf_to_ast s : wf_args (to_ast s).
+Proof.
+  unfold wf_args, to_ast, src_defaults, src_kw_defaults. cbn [defaults posonlyargs args kw_defaults kwonlyargs].
+  rewrite !map_length. split; [|reflexivity].
+  rewrite <- app_length. apply flat_defaults_length.
+Qed.
+
+(* all have a default *)
+Lemma monotone_true_all l :
+  defaults_monotone true l = true ->
+  map sp_default l = map Some (flat_map (fun p => match sp_default p with Some d => [d] | None => [] end) l).
+Proof.
+  induction l as [|p l IH]; cbn [defaults_monotone map flat_map]; [reflexivity|].
+  destruct (sp_default p) as [d|]; [|discriminate].
+  intros H. cbn [app map]. f_equal. apply IH. exact H.
+Qed.
+
+(* valid source: the right-aligned reading of `defaults` is what was written *)
+Lemma aligned_src l :
+  defaults_monotone false l = true ->
+  aligned_defaults (length l) (flat_map (fun p => match sp_default p with Some d => [d] | None => [] end) l)
+  = map sp_default l.
+Proof.
+  unfold aligned_defaults. induction l as [|p l IH]; cbn [defaults_monotone map flat_map length]; [reflexivity|].
+  destruct (sp_default p) as [d|] eqn:Ed.
+  - intros H. pose proof (monotone_true_all l H) as Hall.
+    pose proof (f_equal (@length _) Hall) as Hl. rewrite !map_length in Hl.
+    cbn [app length map]. rewrite <- Hl. rewrite Nat.sub_diag. cbn [repeat app]. rewrite Hall. reflexivity.
+  - cbn [negb andb app]. intros H.
+    pose proof (flat_defaults_length l) as Hle.
+    rewrite Nat.sub_succ_l by exact Hle. cbn [repeat app]. f_equal. apply IH. exact H.
+Qed.
+
+Lemma map_combine_maps {A B C D} (f : B * C -> D) (g : A -> B) (h : A -> C) (l : list A) :
+  map f (combine (map g l) (map h l)) = map (fun x => f (g x, h x)) l.
+Proof. induction l; cbn; congruence. Qed.
+
+Lemma expected_params_to_ast ann s :
+  valid_src s ->
+  (forall p, In p (params_of_src s) -> dict_get (pname p) ann = shown_annot (pannot p)) ->
+  expected_params ann (to_ast s) = displayed_params s.
+Proof.
+  intros Hv Hann. unfold expected_params, displayed_params, params_of_src in *.
+  unfold to_ast. cbn [posonlyargs args vararg kwonlyargs kwarg kw_defaults defaults].
+  rewrite !map_length. unfold src_defaults, src_kw_defaults.
+  rewrite <- app_length. rewrite aligned_src by exact Hv.
+  rewrite map_app, firstn_app, skipn_app, !map_length.
+  rewrite Nat.sub_diag, firstn_O, skipn_O, app_nil_r.
+  rewrite firstn_all2 by (rewrite map_length; lia).
+  rewrite skipn_all2 by (rewrite map_length; lia). cbn [app].
+  rewrite !map_combine_maps. rewrite !map_app, !map_map.
+  cbn [fst snd arg_of a_name].
+  assert (Hseg : forall (k : kind) (l : list sparam),
+             (forall p, In p l -> dict_get (sp_name p) ann = shown_annot (sp_annot p)) ->
+             map (fun x => add_arg ann (sp_name x) k (sp_default x)) l =
+             map (fun x => shown_param (mkParam (sp_name x) k (sp_default x) (sp_annot x))) l).
+  { intros k l Hl. apply map_ext_in. intros p Hp. unfold add_arg, shown_param. cbn. rewrite Hl by exact Hp. reflexivity. }
+  rewrite !Hseg.
+  - f_equal. f_equal. f_equal; [|f_equal].
+    + destruct (s_vararg s) as [v|]; [|reflexivity]. cbn. unfold add_arg, shown_param. cbn.
+      assert (Hx := Hann (mkParam (sv_name v) VAR_POSITIONAL None (sv_annot v))). cbn [pname pannot] in Hx.
+      rewrite Hx; [reflexivity|].
+      rewrite !in_app_iff. right. right. left. left. reflexivity.
+    + destruct (s_kwarg s) as [v|]; [|reflexivity]. cbn. unfold add_arg, shown_param. cbn.
+      assert (Hx := Hann (mkParam (sv_name v) VAR_KEYWORD None (sv_annot v))). cbn [pname pannot] in Hx.
+      rewrite Hx; [reflexivity|].
+      rewrite !in_app_iff. right. right. right. right. left. reflexivity.
+  - intros p Hp. apply (Hann (mkParam (sp_name p) KEYWORD_ONLY (sp_default p) (sp_annot p))).
+    rewrite !in_app_iff. right. right. right. left. apply in_map_iff. exists p. auto.
+  - intros p Hp. apply (Hann (mkParam (sp_name p) POSITIONAL_OR_KEYWORD (sp_default p) (sp_annot p))).
+    rewrite !in_app_iff. right. left. apply in_map_iff. exists p. auto.
+  - intros p Hp. apply (Hann (mkParam (sp_name p) POSITIONAL_ONLY (sp_default p) (sp_annot p))).
+    rewrite !in_app_iff. left. apply in_map_iff. exists p. auto.
+Qed.
+
+(* ---- D.3 handle_signature on a definition as written, and its display read back ---- *)
+Lemma NoDup_snoc {A} (l : list A) x : NoDup l -> ~ In x l -> NoDup (l ++ [x]).
+Proof.
+  induction l as [|y l IH]; intros Hnd Hx; cbn [app].
+  - constructor; [intros []|constructor].
+  - inversion Hnd as [|? ? Hy Hl]; subst. constructor.
+    + rewrite in_app_iff. intros [H | [H | []]]; [contradiction|]. apply Hx. left. auto.
+    + apply IH; [exact Hl|]. intros H. apply Hx. right. exact H.
+Qed.
+
+Lemma all_ast_annotations_to_ast s :
+  all_ast_annotations (to_ast s) (s_returns s) =
+  src_pairs s ++ match s_returns s with Some r => [(return_key, Some r)] | None => [] end.
+Proof. unfold all_ast_annotations. rewrite all_args_to_ast. reflexivity. Qed.
+
+Lemma annotations_lookup s :
+  NoDup (src_names s) -> ~ In return_key (src_names s) ->
+  (forall p, In p (params_of_src s) ->
+             dict_get (pname p) (fst (annotations_from_function (to_ast s) (s_returns s))) = shown_annot (pannot p))
+  /\ dict_get return_key (fst (annotations_from_function (to_ast s) (s_returns s))) = shown_annot (s_returns s).
+Proof.
+  intros Hnd Hret. unfold annotations_from_function.
+  rewrite build_annotations_fst, all_ast_annotations_to_ast.
+  assert (Hkeys : NoDup (map fst (src_pairs s ++ match s_returns s with
+                                                 | Some r => [(return_key, Some r)] | None => [] end))).
+  { rewrite map_app, src_pairs_fst. destruct (s_returns s); cbn [map fst].
+    - apply NoDup_snoc; assumption.
+    - rewrite app_nil_r. exact Hnd. }
+  split.
+  - intros p Hp. apply fold_get_in; [exact Hkeys|].
+    rewrite in_app_iff. left. unfold src_pairs. apply in_map_iff. exists p. auto.
+  - destruct (s_returns s) as [r|] eqn:Er.
+    + apply fold_get_in; [exact Hkeys|]. rewrite in_app_iff. right. left. reflexivity.
+    + rewrite fold_get_notin; [reflexivity|]. rewrite app_nil_r, src_pairs_fst. exact Hret.
+Qed.
+
+Lemma annotations_reports s :
+  snd (annotations_from_function (to_ast s) (s_returns s)) = annotation_reports s.
+Proof.
+  unfold annotations_from_function, annotation_reports.
+  rewrite build_annotations_snd, all_ast_annotations_to_ast, map_app. f_equal. f_equal.
+  - unfold src_pairs. rewrite map_map. reflexivity.
+  - destruct (s_returns s); reflexivity.
+Qed.
+
+Lemma to_ast_names s : map a_name (all_args (to_ast s)) = src_names s.
+Proof.
+  rewrite <- src_pairs_fst, <- all_args_to_ast, map_map. reflexivity.
+Qed.
+
+Lemma pmono_of_src l : forall ps sd,
+  map pdefault ps = map sp_default l -> defaults_monotone sd l = true -> exists sd', pmono sd ps = Some sd'.
+Proof.
+  induction l as [|x l IH]; intros [|p ps] sd Hm Hd; cbn [map] in Hm; try discriminate.
+  - eexists; reflexivity.
+  - injection Hm as Hp Hps. cbn [defaults_monotone] in Hd. cbn [pmono]. rewrite Hp.
+    destruct (sp_default x).
+    + apply IH; assumption.
+    + apply andb_true_iff in Hd as [Hsd Hd]. destruct sd; [discriminate|]. apply IH; assumption.
+Qed.
+
+Definition shown_sig (s : src_sig) : signature := mkSig (displayed_params s) (displayed_ret s).
+
+Theorem handle_signature_src s ov asy :
+  valid_src s -> NoDup (src_names s) -> ~ In return_key (src_names s) ->
+  handle_signature (mkDef (to_ast s) (s_returns s) ov asy) = Ok (shown_sig s, annotation_reports s).
+Proof.
+  intros Hv Hnd Hret. unfold handle_signature. cbn [fd_args fd_returns].
+  pose proof (annotations_lookup s Hnd Hret) as [Hget Hgetr].
+  pose proof (annotations_reports s) as Hreps.
+  destruct (annotations_from_function (to_ast s) (s_returns s)) as [ann reps]. cbn [fst snd] in *.
+  rewrite build_params_expected by apply wf_to_ast.
+  rewrite Hgetr.
+  unfold signature_init.
+  rewrite expected_params_valid by apply wf_to_ast.
+  rewrite to_ast_names.
+  replace (dup_free [] (src_names s)) with true by (symmetry; apply dup_free_nil; exact Hnd).
+  rewrite (expected_params_to_ast ann s Hv Hget). subst reps. reflexivity.
+Qed.
+
+Lemma displayed_segments s :
+  displayed_params s =
+  map shown_param (map (fun p => mkParam (sp_name p) POSITIONAL_ONLY (sp_default p) (sp_annot p)) (s_posonly s))
+  ++ map shown_param (map (fun p => mkParam (sp_name p) POSITIONAL_OR_KEYWORD (sp_default p) (sp_annot p)) (s_args s))
+  ++ map shown_param (match s_vararg s with Some v => [mkParam (sv_name v) VAR_POSITIONAL None (sv_annot v)] | None => [] end)
+  ++ map shown_param (map (fun p => mkParam (sp_name p) KEYWORD_ONLY (sp_default p) (sp_annot p)) (s_kwonly s))
+  ++ map shown_param (match s_kwarg s with Some v => [mkParam (sv_name v) VAR_KEYWORD None (sv_annot v)] | None => [] end).
+Proof. unfold displayed_params, params_of_src. rewrite !map_app. reflexivity. Qed.
+
+Theorem displayed_roundtrip s :
+  valid_src s -> Forall name_ok (src_names s) ->
+  read_sig (lex LS0 (format_signature (Some (shown_sig s)))) = Some (shown_sig s).
+Proof.
+  intros Hv Hn. unfold format_signature, shown_sig.
+  destruct (pmono_of_src (s_posonly s ++ s_args s)
+             (map shown_param (map (fun p => mkParam (sp_name p) POSITIONAL_ONLY (sp_default p) (sp_annot p)) (s_posonly s))
+              ++ map shown_param (map (fun p => mkParam (sp_name p) POSITIONAL_OR_KEYWORD (sp_default p) (sp_annot p)) (s_args s)))
+             false) as [sd Hsd].
+  { rewrite !map_app, !map_map. reflexivity. }
+  { exact Hv. }
+  rewrite displayed_segments.
+  apply (sig_str_roundtrip _ _ _ _ _ _ sd).
+  - apply Forall_map, Forall_map, Forall_forall. intros; reflexivity.
+  - apply Forall_map, Forall_map, Forall_forall. intros; reflexivity.
+  - split; destruct (s_vararg s); cbn; try lia; repeat constructor.
+  - apply Forall_map, Forall_map, Forall_forall. intros; reflexivity.
+  - split; destruct (s_kwarg s); cbn; try lia; repeat constructor.
+  - exact Hsd.
+  - rewrite <- displayed_segments. unfold displayed_params, src_names in *.
+    apply Forall_map. rewrite Forall_map in Hn. eapply Forall_impl; [|exact Hn]. cbn. auto.
+Qed.
+
+(* ================================================================================================ *)
+(* E. unstring_annotation                                                                            *)
+(* ================================================================================================ *)
+Lemma expr_ind' (P : expr -> Prop) :
+  P ENoneLit ->
+  (forall sid, P (EStr sid None)) ->
+  (forall sid p, P p -> P (EStr sid (Some p))) ->
+  (forall v s, P v -> P s -> P (ESub v s)) ->
+  (forall id, P (EName id)) ->
+  (forall v a, P v -> P (EAttr v a)) ->
+  (forall t ks, Forall P ks -> P (ENode t ks)) ->
+  (forall l, Forall P l -> P (EList l)) ->
+  forall e, P e.
+Proof.
+  intros H1 H2 H3 H4 H5 H6 H7 H8. fix IH 1. intros [|sid [p|]|v s|id|v a|t ks|l].
+  - exact H1.
+  - apply H3. apply IH.
+  - apply H2.
+  - apply H4; apply IH.
+  - apply H5.
+  - apply H6. apply IH.
+  - apply H7. induction ks as [|k ks IHks]; constructor; [apply IH | exact IHks].
+  - apply H8. induction l as [|k ks IHks]; constructor; [apply IH | exact IHks].
+Qed.
+
+Fixpoint visit_list (l : list expr) : option (list expr) :=
+  match l with
+  | [] => Some []
+  | k :: r =>
+    match visit k with
+    | None => None
+    | Some k' => match visit_list r with Some r' => Some (k' :: r') | None => None end
+    end
+  end.
+
+Lemma visit_node t ks :
+  visit (ENode t ks) = match visit_list ks with Some ks' => Some (ENode t ks') | None => None end.
+Proof. reflexivity. Qed.
+Lemma visit_elist l :
+  visit (EList l) = match visit_list l with Some l' => Some (EList l') | None => None end.
+Proof. reflexivity. Qed.
+
+Definition visit_correct (e : expr) : Prop :=
+  (forall e', visit e = Some e' <-> unstrung e e') /\ (visit e = None <-> bad_string e).
+
+Lemma visit_list_correct l :
+  Forall visit_correct l ->
+  (forall l', visit_list l = Some l' <-> Forall2 unstrung l l') /\ (visit_list l = None <-> Exists bad_string l).
+Proof.
+  induction l as [|k r IH]; intros HF.
+  - split.
+    + intros l'. cbn. split; [intros E; injection E as <-; constructor | intros H; inversion H; reflexivity].
+    + cbn. split; [discriminate | intros H; inversion H].
+  - inversion HF as [|? ? [Hk1 Hk2] Hr]; subst. destruct (IH Hr) as [IH1 IH2]. cbn [visit_list].
+    destruct (visit k) as [k'|] eqn:Ek.
+    + destruct (visit_list r) as [r'|] eqn:Er.
+      * split.
+        -- intros l'. split.
+           ++ intros E; injection E as <-. constructor; [apply Hk1; reflexivity | apply IH1; reflexivity].
+           ++ intros H. inversion H as [|? k2 ? r2 Hk Hr2]; subst.
+              apply Hk1 in Hk. apply IH1 in Hr2. congruence.
+        -- split; [discriminate|]. intros H. inversion H as [? ? Hb | ? ? Hb]; subst.
+           ++ apply Hk2 in Hb. congruence.
+           ++ apply IH2 in Hb. congruence.
+      * split.
+        -- intros l'. split; [discriminate|]. intros H. inversion H as [|? k2 ? r2 Hk Hr2]; subst.
+           apply IH1 in Hr2. congruence.
+        -- split; [|reflexivity]. intros _. apply Exists_cons_tl. apply IH2. reflexivity.
+    + split.
+      * intros l'. split; [discriminate|]. intros H. inversion H as [|? k2 ? r2 Hk Hr2]; subst.
+        apply Hk1 in Hk. congruence.
+      * split; [|reflexivity]. intros _. apply Exists_cons_hd. apply Hk2. reflexivity.
+Qed.
+
+Lemma visit_is_unstrung : forall e, visit_correct e.
+Proof.
+  apply expr_ind'; unfold visit_correct.
+  - (* None *) split.
+    + intros e'. cbn. split; [intros E; injection E as <-; constructor | intros H; inversion H; reflexivity].
+    + cbn. split; [discriminate | intros H; inversion H].
+  - (* bad string *) intros sid. split.
+    + intros e'. cbn. split; [discriminate | intros H; inversion H].
+    + cbn. split; [intros _; constructor | reflexivity].
+  - (* string *) intros sid p [IH1 IH2]. split.
+    + intros e'. cbn [visit]. rewrite IH1. split; [intros H; constructor; exact H | intros H; inversion H; auto].
+    + cbn [visit]. rewrite IH2. split; [intros H; constructor; exact H | intros H; inversion H; auto].
+  - (* subscript *) intros v s [IHv1 IHv2] [IHs1 IHs2]. cbn [visit].
+    destruct (visit v) as [v'|] eqn:Ev.
+    + assert (Hv : unstrung v v') by (apply IHv1; reflexivity).
+      assert (Hvu : forall v2, unstrung v v2 -> v2 = v') by (intros v2 H2; apply IHv1 in H2; congruence).
+      destruct (is_literal_head v') eqn:El.
+      * split.
+        -- intros e'. split.
+           ++ intros E; injection E as <-. apply U_sub_lit; assumption.
+           ++ intros H. inversion H as [| | | |? v2 ? H2 Hl|? v2 ? s2 H2 Hl Hs| |]; subst;
+                apply Hvu in H2; subst v2; [reflexivity | congruence].
+        -- split; [discriminate|]. intros H. inversion H as [| | |? ? Hb|? v2 ? H2 Hl Hb| |]; subst.
+           ++ apply IHv2 in Hb. congruence.
+           ++ apply Hvu in H2. subst v2. congruence.
+      * destruct (visit s) as [s'|] eqn:Es.
+        -- split.
+           ++ intros e'. split.
+              ** intros E; injection E as <-. apply U_sub; [assumption..|apply IHs1; reflexivity].
+              ** intros H. inversion H as [| | | |? v2 ? H2 Hl|? v2 ? s2 H2 Hl Hs| |]; subst;
+                   apply Hvu in H2; subst v2; [congruence|]. apply IHs1 in Hs. congruence.
+           ++ split; [discriminate|]. intros H. inversion H as [| | |? ? Hb|? v2 ? H2 Hl Hb| |]; subst.
+              ** apply IHv2 in Hb. congruence.
+              ** apply IHs2 in Hb. congruence.
+        -- split.
+           ++ intros e'. split; [discriminate|].
+              intros H. inversion H as [| | | |? v2 ? H2 Hl|? v2 ? s2 H2 Hl Hs| |]; subst;
+                apply Hvu in H2; subst v2; [congruence|]. apply IHs1 in Hs. congruence.
+           ++ split; [|reflexivity]. intros _. apply B_sub_s with v'; auto. apply IHs2. reflexivity.
+    + split.
+      * intros e'. split; [discriminate|].
+        intros H. inversion H as [| | | |? v2 ? H2 Hl|? v2 ? s2 H2 Hl Hs| |]; subst; apply IHv1 in H2; congruence.
+      * split; [|reflexivity]. intros _. apply B_sub_v. apply IHv2. reflexivity.
+  - (* name *) intros id. split.
+    + intros e'. cbn. split; [intros E; injection E as <-; constructor | intros H; inversion H; reflexivity].
+    + cbn. split; [discriminate | intros H; inversion H].
+  - (* attribute *) intros v a [IH1 IH2]. cbn [visit]. destruct (visit v) as [v'|] eqn:Ev.
+    + split.
+      * intros e'. split.
+        -- intros E; injection E as <-. constructor. apply IH1. reflexivity.
+        -- intros H. inversion H as [| | |? v2 ? H2| | | |]; subst. apply IH1 in H2. congruence.
+      * split; [discriminate|]. intros H. inversion H as [| |? ? Hb| | | |]; subst. apply IH2 in Hb. congruence.
+    + split.
+      * intros e'. split; [discriminate|]. intros H. inversion H as [| | |? v2 ? H2| | | |]; subst.
+        apply IH1 in H2. congruence.
+      * split; [|reflexivity]. intros _. constructor. apply IH2. reflexivity.
+  - (* other node *) intros t ks HF. destruct (visit_list_correct ks HF) as [L1 L2]. rewrite visit_node.
+    destruct (visit_list ks) as [ks'|] eqn:E.
+    + split.
+      * intros e'. split.
+        -- intros E2; injection E2 as <-. constructor. apply L1. reflexivity.
+        -- intros H. inversion H as [| | | | | |? ? ks2 H2|]; subst. apply L1 in H2. congruence.
+      * split; [discriminate|]. intros H. inversion H as [| | | | |? ? Hb|]; subst. apply L2 in Hb. congruence.
+    + split.
+      * intros e'. split; [discriminate|]. intros H. inversion H as [| | | | | |? ? ks2 H2|]; subst.
+        apply L1 in H2. congruence.
+      * split; [|reflexivity]. intros _. constructor. apply L2. reflexivity.
+  - (* list field *) intros l HF. destruct (visit_list_correct l HF) as [L1 L2]. rewrite visit_elist.
+    destruct (visit_list l) as [l'|] eqn:E.
+    + split.
+      * intros e'. split.
+        -- intros E2; injection E2 as <-. constructor. apply L1. reflexivity.
+        -- intros H. inversion H as [| | | | | | |? l2 H2]; subst. apply L1 in H2. congruence.
+      * split; [discriminate|]. intros H. inversion H as [| | | | | |? Hb]; subst. apply L2 in Hb. congruence.
+    + split.
+      * intros e'. split; [discriminate|]. intros H. inversion H as [| | | | | | |? l2 H2]; subst.
+        apply L1 in H2. congruence.
+      * split; [|reflexivity]. intros _. constructor. apply L2. reflexivity.
+Qed.
+
+Theorem unstring_annotation_spec e :
+  (forall e', unstring_annotation e = (e', false) <-> unstrung e e') /\
+  (snd (unstring_annotation e) = true <-> bad_string e) /\
+  (bad_string e -> unstring_annotation e = (after e, true)).
+Proof.
+  destruct (visit_is_unstrung e) as [H1 H2]. unfold unstring_annotation.
+  destruct (visit e) as [e2|] eqn:E.
+  - split; [|split].
+    + intros e'. rewrite <- H1. split; [intros H; injection H as <-; reflexivity | intros H; injection H as <-; reflexivity].
+    + cbn. split; [discriminate|]. intros H. apply H2 in H. discriminate.
+    + intros H. apply H2 in H. discriminate.
+  - split; [|split].
+    + intros e'. split; [discriminate|]. intros H. apply H1 in H. discriminate.
+    + cbn. split; [intros _; apply H2; reflexivity | reflexivity].
+    + reflexivity.
+Qed.
+
+(* ================================================================================================ *)
+(* F. overloads                                                                                      *)
+(* ================================================================================================ *)
+Definition kw_wf (d : funcdef) : Prop := length (kw_defaults (fd_args d)) = length (kwonlyargs (fd_args d)).
+
+(* the Signature _handleFunctionDef computes for one definition, on its own *)
+Definition sig_of (d : funcdef) : signature :=
+  match handle_signature d with Ok (s, _) => s | Raise _ => mkSig [] None end.
+Definition reports_of (d : funcdef) : list report :=
+  match handle_signature d with Ok (_, r) => r | Raise _ => [] end.
+
+Lemma handle_signature_total d : kw_wf d -> handle_signature d = Ok (sig_of d, reports_of d).
+Proof.
+  intros Hk. unfold sig_of, reports_of. unfold handle_signature.
+  destruct (annotations_from_function (fd_args d) (fd_returns d)) as [ann reps].
+  assert (Ht : exists ps, build_params ann (fd_args d) = Ok ps).
+  { unfold build_params. unfold kw_wf in Hk.
+    set (n := (length (posonlyargs (fd_args d)) + length (args (fd_args d)))%nat).
+    replace (zlen (posonlyargs (fd_args d)) + zlen (args (fd_args d)))%Z with (Z.of_nat n) by (unfold zlen, n; lia).
+    destruct (loop_positional_total ann n (defaults (fd_args d)) POSITIONAL_ONLY (posonlyargs (fd_args d)) 0) as [p1 H1];
+      [unfold n; lia|].
+    cbn [Z.of_nat] in H1. rewrite H1.
+    change (zlen (posonlyargs (fd_args d))) with (Z.of_nat (length (posonlyargs (fd_args d)))).
+    destruct (loop_positional_total ann n (defaults (fd_args d)) POSITIONAL_OR_KEYWORD (args (fd_args d))
+                                    (length (posonlyargs (fd_args d)))) as [p2 H2]; [unfold n; lia|].
+    rewrite H2. rewrite Hk, Nat.eqb_refl. cbn [negb]. eexists; reflexivity. }
+  destruct Ht as [ps H].
+  - rewrite H. destruct (signature_init ps _); reflexivity.
+Qed.
+
+(* a run of @overload definitions on a Function that has no primary signature yet *)
+Lemma handle_defs_overloads ovs : forall f0,
+  Forall kw_wf ovs -> Forall (fun d => fd_overload d = true) ovs ->
+  fn_signature f0 = None ->
+  (fn_overloads f0 <> [] \/ (f0 = mkFun None [] false)) ->
+  ovs <> [] ->
+  exists f reps,
+    handle_defs (Some f0) ovs = Ok (Some f, reps) /\
+    fn_signature f = None /\ fn_overloads f = fn_overloads f0 ++ map sig_of ovs /\
+    reps = flat_map reports_of ovs /\
+    fn_async f = fd_async (last ovs (mkDef (mkArgs [] [] None [] [] None []) None true false)).
+Proof.
+  induction ovs as [|d ovs IH]; intros f0 Hwf Hov Hsig Hf0 Hne; [contradiction|].
+  inversion Hwf as [|? ? Hd Hwf']; subst. inversion Hov as [|? ? Hdo Hov']; subst.
+  cbn [handle_defs]. unfold handle_def.
+  set (f1 := mkFun None (fn_overloads f0 ++ [sig_of d]) (fd_async d)).
+  assert (Hd1 : handle_def (Some f0) d = Ok (f1, reports_of d)).
+  { unfold handle_def. rewrite handle_signature_total by exact Hd. rewrite Hdo.
+    destruct Hf0 as [Hf0 | ->].
+    - destruct (fn_overloads f0) as [|o os] eqn:Eo; [contradiction|]. rewrite Hsig. unfold f1. cbn [fn_overloads fn_signature]. rewrite ?Eo. reflexivity.
+    - reflexivity. }
+  unfold handle_def in Hd1. rewrite Hd1.
+  destruct ovs as [|d2 ovs].
+  - cbn [handle_defs]. exists f1, (reports_of d ++ []).
+    split; [reflexivity|]. split; [reflexivity|]. split; [reflexivity|].
+    split; [cbn [flat_map]; reflexivity | reflexivity].
+  - destruct (IH f1 Hwf' Hov' eq_refl) as (f & reps & Hh & Hs & Ho & Hr & Ha).
+    + left. unfold f1. cbn [fn_overloads]. destruct (fn_overloads f0); discriminate.
+    + discriminate.
+    + rewrite Hh. exists f, (reports_of d ++ reps).
+      split; [reflexivity|]. split; [exact Hs|]. split; [|split].
+      * rewrite Ho. unfold f1. cbn [fn_overloads map]. rewrite <- app_assoc. reflexivity.
+      * rewrite Hr. reflexivity.
+      * exact Ha.
+Qed.
+
+Lemma displayed_defs_overloaded name f ovs :
+  fn_overloads f = map sig_of ovs -> ovs <> [] ->
+  displayed_defs name f = map (fun d => format_function_def name (fn_async f) false (Some (sig_of d))) ovs.
+Proof.
+  intros Ho Hne. unfold displayed_defs. rewrite Ho, map_map.
+  destruct ovs as [|d ovs]; [contradiction|].
+  change (format_function_def name (fn_async f)
+            match map sig_of (d :: ovs) with [] => false | _ :: _ => true end (fn_signature f))
+    with (@nil piece).
+  apply app_nil_r.
+Qed.
+
+Definition dummy_def : funcdef := mkDef (mkArgs [] [] None [] [] None []) None true false.
+
+(* @overload definitions followed by the implementation: each overload keeps its own signature, in order;
+   the entry shows one definition line per overload and not the implementation's *)
+Theorem overloads_then_primary name ovs prim :
+  Forall kw_wf ovs -> kw_wf prim -> Forall (fun d => fd_overload d = true) ovs -> fd_overload prim = false ->
+  ovs <> [] ->
+  exists f,
+    handle_defs None (ovs ++ [prim]) = Ok (Some f, flat_map reports_of (ovs ++ [prim])) /\
+    fn_overloads f = map sig_of ovs /\ fn_signature f = Some (sig_of prim) /\
+    displayed_defs name f =
+    map (fun d => format_function_def name (fd_async prim) false (Some (sig_of d))) ovs.
+Proof.
+  intros Hwf Hp Hov Hpo Hne.
+  destruct ovs as [|d ovs]; [contradiction|].
+  inversion Hwf as [|? ? Hd Hwf']; subst. inversion Hov as [|? ? Hdo Hov']; subst.
+  (* first definition: a new Function *)
+  assert (H1 : handle_def None d = Ok (mkFun None [sig_of d] (fd_async d), reports_of d)).
+  { unfold handle_def. rewrite handle_signature_total by exact Hd. rewrite Hdo. reflexivity. }
+  set (f1 := mkFun None [sig_of d] (fd_async d)) in *.
+  (* the implementation, on a Function f that has overloads and no primary yet *)
+  assert (Hprim : forall f, fn_signature f = None -> fn_overloads f <> [] ->
+                            handle_def (Some f) prim =
+                            Ok (mkFun (Some (sig_of prim)) (fn_overloads f) (fd_async prim), reports_of prim)).
+  { intros f Hs Ho. unfold handle_def. rewrite handle_signature_total by exact Hp. rewrite Hpo.
+    destruct (fn_overloads f) as [|o os] eqn:Eo; [contradiction|]. rewrite Hs. cbn [fn_overloads fn_signature]. rewrite ?Eo. reflexivity. }
+  cbn [app handle_defs]. rewrite H1.
+  destruct ovs as [|d2 ovs].
+  - cbn [app handle_defs]. rewrite (Hprim f1 eq_refl) by discriminate.
+    eexists. split; [|split; [|split]].
+    + cbn [flat_map app]. rewrite !app_nil_r. reflexivity.
+    + reflexivity.
+    + reflexivity.
+    + rewrite (displayed_defs_overloaded name _ [d]); [reflexivity | reflexivity | discriminate].
+  - (* the remaining overloads, then the implementation *)
+    assert (Hsplit : forall ds f0, handle_defs (Some f0) (ds ++ [prim]) =
+                                   match handle_defs (Some f0) ds with
+                                   | Ok (Some f, reps) =>
+                                     match handle_def (Some f) prim with
+                                     | Ok (f', reps') => Ok (Some f', reps ++ reps' ++ [])
+                                     | Raise e => Raise e
+                                     end
+                                   | Ok (None, reps) => Raise IndexError
+                                   | Raise e => Raise e
+                                   end).
+    { induction ds as [|x ds IHds]; intros f0; cbn [app handle_defs].
+      - destruct (handle_def (Some f0) prim) as [[f' reps']|]; reflexivity.
+      - destruct (handle_def (Some f0) x) as [[fx repsx]|]; [|reflexivity].
+        rewrite IHds. destruct (handle_defs (Some fx) ds) as [[[f|] reps]|]; try reflexivity.
+        destruct (handle_def (Some f) prim) as [[f' reps']|]; [|reflexivity].
+        rewrite <- app_assoc. reflexivity. }
+    rewrite Hsplit.
+    destruct (handle_defs_overloads (d2 :: ovs) f1 Hwf' Hov' eq_refl) as (f & reps & Hh & Hs & Ho & Hr & Ha).
+    + left. discriminate.
+    + discriminate.
+    + rewrite Hh. rewrite (Hprim f Hs) by (rewrite Ho; discriminate).
+      exists (mkFun (Some (sig_of prim)) (fn_overloads f) (fd_async prim)). split; [|split; [|split]].
+      * rewrite Hr. do 2 f_equal.
+        change (flat_map reports_of (d :: (d2 :: ovs) ++ [prim]))
+          with (reports_of d ++ flat_map reports_of ((d2 :: ovs) ++ [prim])).
+        rewrite flat_map_app. cbn [flat_map]. reflexivity.
+      * cbn [fn_overloads]. rewrite Ho. reflexivity.
+      * reflexivity.
+      * rewrite (displayed_defs_overloaded name _ (d :: d2 :: ovs)); [reflexivity | | discriminate].
+        cbn [fn_overloads]. rewrite Ho. reflexivity.
+Qed.
+
+(* no overloads: the entry shows the definition itself *)
+Theorem primary_alone name prim :
+  kw_wf prim -> fd_overload prim = false ->
+  handle_defs None [prim] = Ok (Some (mkFun (Some (sig_of prim)) [] (fd_async prim)), reports_of prim ++ []) /\
+  displayed_defs name (mkFun (Some (sig_of prim)) [] (fd_async prim)) =
+  [format_function_def name (fd_async prim) false (Some (sig_of prim))].
+Proof.
+  intros Hp Hpo. split.
+  - cbn [handle_defs]. unfold handle_def. rewrite handle_signature_total by exact Hp. rewrite Hpo. reflexivity.
+  - unfold displayed_defs. cbn [fn_overloads fn_signature fn_async map app].
+    unfold format_function_def. destruct (fd_async prim); reflexivity.
+Qed.
+
+(* only @overload definitions (a stub file): every one is shown *)
+Theorem overloads_only name ovs :
+  Forall kw_wf ovs -> Forall (fun d => fd_overload d = true) ovs -> ovs <> [] ->
+  exists f,
+    handle_defs None ovs = Ok (Some f, flat_map reports_of ovs) /\
+    fn_overloads f = map sig_of ovs /\ fn_signature f = None /\
+    displayed_defs name f = map (fun d => format_function_def name (fn_async f) false (Some (sig_of d))) ovs.
+Proof.
+  intros Hwf Hov Hne.
+  assert (Hsame : handle_defs None ovs = handle_defs (Some (mkFun None [] false)) ovs).
+  { destruct ovs as [|d ovs]; [contradiction|]. reflexivity. }
+  destruct (handle_defs_overloads ovs (mkFun None [] false) Hwf Hov eq_refl (or_intror eq_refl) Hne)
+    as (f & reps & Hh & Hs & Ho & Hr & _).
+  exists f. rewrite Hsame, Hh, Hr. cbn [fn_overloads app] in Ho.
+  split; [reflexivity|]. split; [exact Ho|]. split; [exact Hs|].
+  apply displayed_defs_overloaded; assumption.
+Qed.
